@@ -2,10 +2,14 @@
 // Reference: harness/common/ref_vario.hpp (O(n^2) enumeration, long double). Each case = (Db, VarioParam, mode).
 //
 // Case kinds:
-//   general : scattered Db (1-3 D), 1-3 directions, every ECalcVario mode of the general algorithm
+//   general : scattered Db (1-3 D), 1-3 directions, every ECalcVario mode of the general algorithm; metamorphic relations
+//             (sample permutation, exact translation, reversed variable order, one direction alone)
 //   grid    : DbGrid, grid-specialised algorithm (DirParam::createFromGrid) vs reference, vs general algorithm
 //   genvar  : generalised variograms of order 1-3 on a DbGrid
+//   vmap    : db_vmap on scattered data and on grids (direct and FFT algorithms)
+//   vcloud  : db_vcloud cell counts
 // Estimator definitions and which quantities are asserted per mode: see modeTable() and the comments in compare*().
+// Generator switches (AVOID_*, BYSAMPLE_MULTIDIR_EQUAL_NPAS) are listed after LibAbort below.
 #include "common/vh.hpp"
 #include "common/ref_vario.hpp"
 
@@ -14,6 +18,8 @@
 #include "Variogram/Vario.hpp"
 #include "Variogram/VarioParam.hpp"
 #include "Variogram/DirParam.hpp"
+#include "Variogram/VMap.hpp"
+#include "Variogram/VCloud.hpp"
 #include "Enum/ECalcVario.hpp"
 #include "Space/ASpaceObject.hpp"
 #include "Basic/OptDbg.hpp"
@@ -39,6 +45,7 @@ static const bool AVOID_BYSAMPLE_MULTIDIR = false; // COVARIOGRAM (by-sample alg
 // different lag counts this runs out of the arrays (ASan / UBSan abort with address-dependent messages). With equal lag
 // counts the same defect shows as a failed "dir-split" oracle under a stable key, so that is what is generated.
 static const bool BYSAMPLE_MULTIDIR_EQUAL_NPAS = true;
+static const bool AVOID_VMAP_FFT_COV_2D = false; // db_vmap(flag_FFT=true) of a covariance on a 2-D grid (heap overflow)
 static void onLibExit() { throw LibAbort(); }
 
 // what the harness asserts for a mode
@@ -1159,6 +1166,388 @@ static void caseGenVar(Rng& r, Ctx& c)
   compareDir(cc, *v, 0, R, "genvar");
 }
 
+
+// ------------------------------------------------------------------------------------------------------------
+// case kind 4: variogram maps. "The experimental variogram map is a map centered at the origin, which represents the
+// value of experimental directional variogram across all directions" (doc/references/Variogram_Map.md): the cell of the
+// map nearest to the separation vector h (and the one nearest to -h) receives the pair; per cell: sum of pair weights
+// and mean two-point term. The centre cell (zero separation: every sample paired with itself) is not compared.
+// ------------------------------------------------------------------------------------------------------------
+struct MapRef
+{
+  std::vector<int> nxx;
+  std::vector<refv::Cell> cells; // [rank][cell]
+  int ncell = 0;
+  refv::Cell& at(int a, int b, int cell) { if (a < b) std::swap(a, b); return cells[(size_t)(a * (a + 1) / 2 + b) * ncell + cell]; }
+};
+// candidate cell indices along one axis for a separation component (two when within the margin of a cell boundary)
+static std::vector<int> axisCells(LD delta, double dx, int nxx)
+{
+  std::vector<int> out;
+  LD q  = delta / (LD)dx + (LD)nxx;
+  int k = (int)floorl(q + 0.5L);
+  LD fr = q + 0.5L - floorl(q + 0.5L); // in [0,1): distance above the lower boundary of cell k
+  out.push_back(k);
+  if (fr < 1e-9L) out.push_back(k - 1);
+  if (fr > 1 - 1e-9L) out.push_back(k + 1);
+  return out;
+}
+static void vmapAccumulate(MapRef& M, const refv::Data& D, const std::vector<double>& dx, int refMode, int i, int j,
+                           const std::vector<LD>& delta, bool oddFlip)
+{
+  // separation vector 'delta' = x_j - x_i (or its opposite when oddFlip: then the roles of i and j are exchanged)
+  int nd = (int)dx.size();
+  std::vector<std::vector<int>> cand(nd);
+  bool ambiguous = false;
+  for (int k = 0; k < nd; k++)
+  {
+    cand[k] = axisCells(delta[k], dx[k], M.nxx[k]);
+    if (cand[k].size() > 1) ambiguous = true;
+  }
+  // enumerate candidate cells
+  std::vector<int> idx(nd, 0);
+  for (;;)
+  {
+    bool inside = true;
+    int cell = 0, mul = 1;
+    for (int k = 0; k < nd; k++)
+    {
+      int c = cand[k][idx[k]];
+      int n = 2 * M.nxx[k] + 1;
+      if (c < 0 || c >= n) inside = false;
+      cell += c * mul;
+      mul *= n;
+    }
+    if (inside)
+    {
+      for (int a = 0; a < D.nvar; a++)
+        for (int b = 0; b <= a; b++)
+        {
+          refv::Cell& c = M.at(a, b, cell);
+          if (ambiguous) { c.taint = true; continue; }
+          LD w = (LD)D.weight(i) * (LD)D.weight(j);
+          if (refMode == refv::M_COVARIANCE_NC)
+          {
+            int t = oddFlip ? j : i, h = oddFlip ? i : j; // C_ab(h) = z_a(x) z_b(x + h)
+            if (refv::undef(D.z[a][t]) || refv::undef(D.z[b][h]) || refv::undef(D.z[a][h]) || refv::undef(D.z[b][t])) continue;
+            refv::addCell(c, w, 0, (LD)D.z[a][t] * (LD)D.z[b][h]);
+          }
+          else
+          {
+            LD v;
+            if (!refv::evenTerm(D, refMode, a, b, i, j, v)) continue;
+            refv::addCell(c, w, 0, v);
+          }
+        }
+    }
+    int k = 0;
+    while (k < nd && ++idx[k] >= (int)cand[k].size()) { idx[k] = 0; k++; }
+    if (k == nd) break;
+  }
+}
+static MapRef vmapReference(const refv::Data& D, const std::vector<int>& nxx, const std::vector<double>& dx, int refMode)
+{
+  MapRef M;
+  M.nxx   = nxx;
+  M.ncell = 1;
+  for (int k : nxx) M.ncell *= 2 * k + 1;
+  M.cells.assign((size_t)D.nvar * (D.nvar + 1) / 2 * M.ncell, refv::Cell());
+  int nd = D.ndim;
+  std::vector<LD> delta(nd);
+  for (int i = 0; i < D.n; i++)
+  {
+    if (!D.active(i)) continue;
+    for (int j = i + 1; j < D.n; j++)
+    {
+      if (!D.active(j)) continue;
+      for (int k = 0; k < nd; k++) delta[k] = (LD)D.x[k][j] - (LD)D.x[k][i];
+      vmapAccumulate(M, D, dx, refMode, i, j, delta, false);
+      for (int k = 0; k < nd; k++) delta[k] = -delta[k];
+      vmapAccumulate(M, D, dx, refMode, i, j, delta, true);
+    }
+  }
+  return M;
+}
+// read the map: the Var columns then the Nb columns are the last 2*nv2 columns of the output grid
+static bool readMap(const DbGrid& m, int nv2, std::vector<std::vector<double>>& var, std::vector<std::vector<double>>& nb)
+{
+  int nc = m.getColumnNumber();
+  if (nc < 2 * nv2) return false;
+  var.clear(); nb.clear();
+  for (int r = 0; r < nv2; r++) var.push_back(m.getColumnByColIdx(nc - 2 * nv2 + r).getVector());
+  for (int r = 0; r < nv2; r++) nb.push_back(m.getColumnByColIdx(nc - nv2 + r).getVector());
+  return true;
+}
+static void compareMap(Ctx& c, const std::string& kp, MapRef& M, const refv::Data& D, const std::vector<std::vector<double>>& var,
+                       const std::vector<std::vector<double>>& nb, int refMode, bool ggCrossEven)
+{
+  int centre = 0, mul = 1;
+  for (int k : M.nxx) { centre += k * mul; mul *= 2 * k + 1; }
+  for (int a = 0; a < D.nvar; a++)
+    for (int b = 0; b <= a; b++)
+    {
+      int r = a * (a + 1) / 2 + b;
+      if (!c.truth("vmap-shape", kp + "shape", (int)var[r].size() == M.ncell && (int)nb[r].size() == M.ncell,
+                   fmt("%zu cells for %d", var[r].size(), M.ncell)))
+        continue;
+      bool odd = refMode == refv::M_COVARIANCE_NC;
+      // cross-covariance map: which of C_ab(h) / C_ab(-h) a cell holds is not documented: the map or its point
+      // reflection is accepted as a whole
+      int bestFail[2] = {0, 0};
+      for (int conv = 0; conv < ((odd && a != b) ? 2 : 1); conv++)
+        for (int cell = 0; cell < M.ncell; cell++)
+        {
+          if (cell == centre) continue;
+          int rc = conv == 0 ? cell : M.ncell - 1 - cell;
+          refv::Cell& cl = M.at(a, b, rc);
+          if (cl.taint || cl.sw <= 0) continue;
+          double want = (double)(cl.sg / cl.sw), sc = (double)(cl.sabs / cl.sw);
+          if (!(std::fabs(var[r][cell] - want) <= relTol(want, sc))) bestFail[conv]++;
+        }
+      int conv = (odd && a != b && bestFail[1] < bestFail[0]) ? 1 : 0;
+      std::string ab = a == b ? "simple" : "cross";
+      // cross-covariance on heterotopic variables: which couples count is not documented (see compareDir)
+      if (odd && a != b && !isotopicPair(D, a, b)) { c.skip("vmap-cross-hetero"); continue; }
+      for (int cell = 0; cell < M.ncell; cell++)
+      {
+        if (cell == centre) continue;
+        int rc = conv == 0 ? cell : M.ncell - 1 - cell;
+        refv::Cell& cl = M.at(a, b, rc);
+        if (cl.taint) { c.skip("boundary"); continue; }
+        std::string w = fmt("(%d,%d) cell %d of %d np=%ld", a, b, cell, M.ncell, cl.np);
+        c.close("vmap-nb", kp + "nb:" + ab, nb[r][cell], (double)cl.sw, relTol((double)cl.sw, 0), w);
+        if (cl.sw <= 0) { c.close("vmap-empty", kp + "empty", var[r][cell], refv::UNDEF, 0., w); continue; }
+        if (a != b && !odd && !ggCrossEven) continue;
+        double want = (double)(cl.sg / cl.sw), sc = (double)(cl.sabs / cl.sw);
+        c.close("vmap-var", kp + "var:" + ab, var[r][cell], want, relTol(want, sc), w);
+      }
+    }
+}
+
+static void caseVmap(Rng& r, Ctx& c)
+{
+  int ndim = r.pick(std::vector<int>{2, 2, 2, 3});
+  int nvar = r.pick(std::vector<int>{1, 1, 2});
+  static const std::vector<std::string> names = {"VARIOGRAM", "VARIOGRAM", "VARIOGRAM", "COVARIANCE_NC", "MADOGRAM", "ORDER4"};
+  std::string mn     = r.pick(names);
+  const ModeInfo* mi = nullptr;
+  for (auto& m : modeTable())
+    if (mn == m.name) mi = &m;
+  defineDefaultSpace(ESpaceType::RN, ndim);
+  bool onGrid = r.coin(0.4);
+  std::string kp = std::string("C12:vmap:") + (onGrid ? "grid:" : "points:") + mi->name + ":";
+  std::vector<int> nxx(ndim);
+  for (auto& k : nxx) k = r.irange(1, ndim == 2 ? 6 : 3);
+  if (!onGrid)
+  {
+    GenInfo gi;
+    refv::Data D = genScattered(r, c, ndim, nvar, false, gi);
+    D.hasCode = false;
+    std::vector<double> dx(ndim);
+    for (auto& v : dx) v = (gi.layout == "lattice" && r.coin(0.5)) ? gi.unit : gi.extent * r.uni(0.03, 0.25);
+    c.setSig(fmt("vmap:points:%s:ndim=%d:nvar=%d:%s:w%d:s%d:h%d", mi->name, ndim, nvar, gi.layout.c_str(), (int)D.hasW,
+                 (int)D.hasSel, (int)gi.hetero));
+    c.puts("kind", "vmap-points");
+    c.puts("mode", mi->name);
+    c.putn("n", D.n);
+    c.put("nxx", jvec(nxx));
+    c.put("dxx", jvec(dx));
+    c.put("x1", jvec(D.x[0], 12));
+    c.put("z1", jvec(D.z[0], 12));
+    std::vector<double> zero(ndim, 0.);
+    std::unique_ptr<Db> db = mkDb(D, ident(D.n), zero);
+    std::unique_ptr<DbGrid> m(db_vmap(db.get(), ecalc(*mi), VectorInt(nxx), VectorDouble(dx), 0, r.coin()));
+    if (!c.truth("compute", kp + "db_vmap-failed", m != nullptr, "db_vmap returned no map")) return;
+    std::vector<std::vector<double>> var, nb;
+    int nv2 = nvar * (nvar + 1) / 2;
+    if (!c.truth("vmap-shape", kp + "shape", readMap(*m, nv2, var, nb), "Var and Nb columns")) return;
+    MapRef M = vmapReference(D, nxx, dx, mi->refMode);
+    compareMap(c, kp, M, D, var, nb, mi->refMode, mi->ggCross);
+    // sample permutation
+    std::vector<int> p = r.perm(D.n);
+    std::unique_ptr<Db> db2 = mkDb(D, p, zero);
+    std::unique_ptr<DbGrid> m2(db_vmap(db2.get(), ecalc(*mi), VectorInt(nxx), VectorDouble(dx), 0, true));
+    std::vector<std::vector<double>> var2, nb2;
+    if (m2 && readMap(*m2, nv2, var2, nb2))
+      for (int rr = 0; rr < nv2; rr++)
+        for (int cell = 0; cell < M.ncell; cell++)
+        {
+          if (M.cells[(size_t)rr * M.ncell + cell].taint) continue;
+          c.close("vmap-perm", kp + "permutation", nb2[rr][cell], nb[rr][cell], relTol(nb[rr][cell], 0), fmt("nb cell %d", cell));
+          c.close("vmap-perm", kp + "permutation", var2[rr][cell], var[rr][cell], relTol(var[rr][cell], dataScale(D)), fmt("var cell %d", cell));
+        }
+  }
+  else
+  {
+    GridGen gg;
+    refv::Data D;
+    GenInfo gi;
+    // unrotated grid, moderate size; selection and undefined values allowed, no weights
+    int nmaxSave = 0; (void)nmaxSave;
+    std::unique_ptr<DbGrid> g;
+    for (;;)
+    {
+      g = mkGrid(r, c, ndim, nvar, gg, D, gi, false);
+      if (gg.angles.empty()) break;
+    }
+    if (r.coin(0.3))
+    {
+      D.hasSel = true;
+      D.sel.resize(D.n);
+      VectorDouble col(D.n);
+      for (int i = 0; i < D.n; i++) col[i] = D.sel[i] = r.coin(0.8) ? 1. : 0.;
+      g->addColumns(col, "sel", ELoc::SEL, 0);
+    }
+    for (int k = 0; k < ndim; k++) nxx[k] = std::min(nxx[k], std::max(1, gg.nx[k]));
+    c.setSig(fmt("vmap:grid:%s:ndim=%d:nvar=%d:s%d:h%d", mi->name, ndim, nvar, (int)D.hasSel, (int)gi.hetero));
+    c.puts("kind", "vmap-grid");
+    c.puts("mode", mi->name);
+    c.put("nx", jvec(gg.nx));
+    c.put("nxx", jvec(nxx));
+    c.put("z1", jvec(D.z[0], 12));
+    int nv2 = nvar * (nvar + 1) / 2;
+    std::unique_ptr<DbGrid> m(db_vmap(g.get(), ecalc(*mi), VectorInt(nxx), VectorDouble(), 0, false));
+    if (!c.truth("compute", kp + "db_vmap-failed", m != nullptr, "db_vmap (direct) returned no map")) return;
+    std::vector<std::vector<double>> var, nb;
+    if (!c.truth("vmap-shape", kp + "shape", readMap(*m, nv2, var, nb), "Var and Nb columns")) return;
+    MapRef M = vmapReference(D, nxx, gg.dx, mi->refMode);
+    compareMap(c, kp, M, D, var, nb, mi->refMode, mi->ggCross);
+    // FFT algorithm vs direct algorithm (VARIOGRAM / COVARIANCE_NC only; complete grids: the FFT path has its own
+    // treatment of missing values, compared under a separate key)
+    if ((mn == "VARIOGRAM" || mn == "COVARIANCE_NC") && !(AVOID_VMAP_FFT_COV_2D && mn == "COVARIANCE_NC" && ndim == 2))
+    {
+      std::unique_ptr<DbGrid> mf(db_vmap(g.get(), ecalc(*mi), VectorInt(nxx), VectorDouble(), 0, true));
+      std::string kf = kp + ((gi.hetero || D.hasSel) ? "fft-vs-direct:incomplete-grid" : "fft-vs-direct");
+      std::vector<std::vector<double>> varf, nbf;
+      if (c.truth("compute", kp + "db_vmap-fft-failed", mf != nullptr, "db_vmap (FFT) returned no map") && readMap(*mf, nv2, varf, nbf))
+      {
+        int centre = 0, mul = 1;
+        for (int k : nxx) { centre += k * mul; mul *= 2 * k + 1; }
+        for (int rr = 0; rr < nv2; rr++)
+        {
+          int ra = 0;
+          while ((ra + 1) * (ra + 2) / 2 <= rr) ra++;
+          int rb = rr - ra * (ra + 1) / 2;
+          // heterotopic cross-covariance: the two algorithms use different (undocumented) couple rules, reported elsewhere
+          if (mn == "COVARIANCE_NC" && ra != rb && !isotopicPair(D, ra, rb)) { c.skip("vmap-cross-hetero"); continue; }
+          for (int cell = 0; cell < M.ncell && cell < (int)varf[rr].size(); cell++)
+          {
+            if (cell == centre) continue;
+            std::string w = fmt("pair-rank %d cell %d of %d", rr, cell, M.ncell);
+            c.close("vmap-fft", kf, nbf[rr][cell], nb[rr][cell], 1e-8 * std::max(1., std::fabs(nb[rr][cell])), "nb " + w);
+            if (nb[rr][cell] > 0)
+              c.close("vmap-fft", kf, varf[rr][cell], var[rr][cell], 1e-8 * std::max({1., std::fabs(var[rr][cell]), dataScale(D)}), "var " + w);
+          }
+        }
+      }
+    }
+  }
+}
+
+// ------------------------------------------------------------------------------------------------------------
+// case kind 5: variogram clouds. doc/references/Variogram_Cloud.md: "the set of pair of points
+// ( |x_i - x_j| , |z(x_i) - z(x_j)|^2 )"; "variogram clouds are computed as grids": cell (p, q) of the output grid counts
+// the pairs (kept by the direction) whose distance is nearest to p*dlag and whose ordinate is nearest to q*dvar. The
+// library plots HALF the squared difference (the usual convention, consistent with the variogram), the reference text
+// the full one: either ordinate is accepted, for the whole grid.
+// ------------------------------------------------------------------------------------------------------------
+static void caseVcloud(Rng& r, Ctx& c)
+{
+  int ndim = r.pick(std::vector<int>{1, 2, 2, 3});
+  defineDefaultSpace(ESpaceType::RN, ndim);
+  GenInfo gi;
+  refv::Data D = genScattered(r, c, ndim, 1, false, gi);
+  D.hasW = false; D.w.clear();
+  D.hasCode = false; D.code.clear();
+  int ndir = r.irange(1, 2);
+  std::vector<DirSpec> dirs;
+  std::string dt;
+  for (int i = 0; i < ndir; i++)
+  {
+    DirSpec s = genDir(r, ndim, gi, 0);
+    s.ref.breaks.clear();
+    dirs.push_back(s);
+    dt += (i ? "," : "") + s.tag;
+  }
+  int lagnb = r.irange(3, 12), varnb = r.irange(3, 10);
+  double lagmax = gi.extent * r.uni(0.3, 1.2), varmax = r.uni(0.5, 6.);
+  c.setSig(fmt("vcloud:ndim=%d:%s:s%d:h%d:%s", ndim, gi.layout.c_str(), (int)D.hasSel, (int)gi.hetero, dt.c_str()));
+  c.puts("kind", "vcloud");
+  c.putn("n", D.n);
+  c.putn("lagnb", lagnb); c.putn("varnb", varnb); c.putn("lagmax", lagmax); c.putn("varmax", varmax);
+  c.put("x1", jvec(D.x[0], 12));
+  c.put("z1", jvec(D.z[0], 12));
+  VarioParam vp;
+  for (auto& s : dirs) vp.addDir(mkDirParam(s));
+  std::vector<double> zero(ndim, 0.);
+  std::unique_ptr<Db> db = mkDb(D, ident(D.n), zero);
+  std::string kp = "C12:vcloud:";
+  std::unique_ptr<DbGrid> g(db_vcloud(db.get(), &vp, lagmax, varmax, lagnb, varnb));
+  if (!c.truth("compute", kp + "db_vcloud-failed", g != nullptr, "db_vcloud returned no grid")) return;
+  int nc = g->getColumnNumber();
+  if (!c.truth("vcloud-shape", kp + "shape", nc >= ndir && g->getSampleNumber() == lagnb * varnb, "one column per direction")) return;
+  double dl = lagmax / lagnb, dv = varmax / varnb;
+  for (int idir = 0; idir < ndir; idir++)
+  {
+    std::vector<double> got = g->getColumnByColIdx(nc - ndir + idir).getVector();
+    // reference counts for the two ordinates (factor 1/2 and factor 1)
+    std::vector<long> cnt[2];
+    std::vector<char> taint[2];
+    for (int f = 0; f < 2; f++) { cnt[f].assign((size_t)lagnb * varnb, 0); taint[f].assign((size_t)lagnb * varnb, 0); }
+    // geometric acceptance only: one lag class wide enough for every distance
+    refv::Dir gd = dirs[idir].ref;
+    gd.npas = 1; gd.dpas = 1e30; gd.toldis = 0.5;
+    for (int i = 0; i < D.n; i++)
+    {
+      if (!D.active(i)) continue;
+      for (int j = i + 1; j < D.n; j++)
+      {
+        if (!D.active(j)) continue;
+        if (refv::undef(D.z[0][i]) || refv::undef(D.z[0][j])) continue;
+        refv::PairGeom pg = refv::pairGeom(D, gd, i, j);
+        bool amb = !pg.taintLags.empty();
+        if (pg.reject && !amb) continue;
+        LD dz = (LD)D.z[0][j] - (LD)D.z[0][i];
+        for (int f = 0; f < 2; f++)
+        {
+          LD y  = dz * dz * (f == 0 ? 0.5L : 1.0L);
+          LD qx = pg.d / (LD)dl + 0.5L, qy = y / (LD)dv + 0.5L;
+          int ix = (int)floorl(qx), iy = (int)floorl(qy);
+          bool ambc = amb || (qx - floorl(qx)) < 1e-9L || (qx - floorl(qx)) > 1 - 1e-9L || (qy - floorl(qy)) < 1e-9L ||
+                      (qy - floorl(qy)) > 1 - 1e-9L;
+          for (int ax = -1; ax <= 1; ax++)
+            for (int ay = -1; ay <= 1; ay++)
+            {
+              int cx = ix + ax, cy = iy + ay;
+              if (cx < 0 || cy < 0 || cx >= lagnb || cy >= varnb) continue;
+              if (ax == 0 && ay == 0 && !ambc) cnt[f][(size_t)cy * lagnb + cx]++;
+              else if (ambc) taint[f][(size_t)cy * lagnb + cx] = 1;
+            }
+          if (ambc && ix >= 0 && iy >= 0 && ix < lagnb && iy < varnb) taint[f][(size_t)iy * lagnb + ix] = 1;
+        }
+      }
+    }
+    int bad[2] = {0, 0};
+    for (int f = 0; f < 2; f++)
+      for (size_t k = 0; k < got.size(); k++)
+      {
+        if (taint[f][k]) continue;
+        double want = cnt[f][k] > 0 ? (double)cnt[f][k] : refv::UNDEF;
+        if (got[k] != want) bad[f]++;
+      }
+    int f = bad[1] < bad[0] ? 1 : 0;
+    c.probe(f == 0 ? "vcloud-half-squared-difference" : "vcloud-full-squared-difference");
+    for (size_t k = 0; k < got.size(); k++)
+    {
+      if (taint[f][k]) { c.skip("boundary"); continue; }
+      // "Replace zero values by TEST values": an empty cell reports the undefined value
+      double want = cnt[f][k] > 0 ? (double)cnt[f][k] : refv::UNDEF;
+      c.close("vcloud-count", kp + "count", got[k], want, 0.,
+              fmt("dir %d cell (%zu,%zu) of %dx%d [%s]", idir, k % lagnb, k / lagnb, lagnb, varnb, dirs[idir].tag.c_str()));
+    }
+  }
+}
+
 // Vario.cpp keeps the "current direction" in a file static (IDIRLOC) that some algorithms read without setting it.
 // To keep every case a function of (seed, index) alone, a one-direction variogram of two points is computed first,
 // which leaves that static at 0 whatever the previous case did.
@@ -1180,9 +1569,11 @@ static void run_case(Rng& r, Ctx& c)
   g_collapse.clear();
   primeStatics();
   int k = r.irange(0, 99);
-  if (k < 62) caseGeneral(r, c);
-  else if (k < 90) caseGrid(r, c);
-  else caseGenVar(r, c);
+  if (k < 54) caseGeneral(r, c);
+  else if (k < 79) caseGrid(r, c);
+  else if (k < 86) caseGenVar(r, c);
+  else if (k < 94) caseVmap(r, c);
+  else caseVcloud(r, c);
 }
 
 int main(int argc, char** argv) { return run_main(argc, argv, "C12", run_case); }
